@@ -66,6 +66,8 @@ def describe(cfg):
         d += " finalised %d Forward(s) late" % cfg["late"]
     if cfg.get("np"):
         d += " [integer arguments as numpy.int64]"
+    if cfg.get("iter"):
+        d += " [driven through iter(schedule)]"
     return d
 
 
@@ -455,6 +457,19 @@ def numpy_typed_box(tier):
         for c in base:
             c["np"] = True
             yield c
+
+
+def iter_driver_box(tier):
+    """Every class driven the `for action in schedule` way: it = iter(schedule) first, observers read
+    before the first action is requested, then next(it)."""
+    for c in numpy_typed_box("quick"):
+        if c["n"] in (1, 2, 3, 5, 8):
+            c = dict(c)
+            c.pop("np")
+            c["iter"] = True
+            yield c
+            if c["cls"] in ("SingleMemory", "SingleDisk", "TwoLevel", "None") and c["n"] <= 3:
+                yield dict(c, late=2)
 
 
 def deep_repeat_probes(tier):
